@@ -115,7 +115,15 @@ Error query_rw_info(const BaseInst& inst, const Operand_* operands, size_t op_co
   const InstDB::InstInfo& inst_info = InstDB::_inst_info_table[real_id];
   const InstRWInfoData& rw_info = inst_rw_info_table[inst_info.rw_info_index()];
 
-  if (inst_info.has_flag(InstDB::kInstFlagConsecutive) && op_count > 2) {
+  // Instructions that use consecutive registers have the following forms:
+  //   - `{list}, [mem]`    - LDn, STn, and CASP - the list starts at the first operand and ends before the last one.
+  //   - `Vd, {list}, Vm`   - TBL and TBX - the list is between the destination and the index register.
+  bool is_tbl_or_tbx = real_id == Inst::kIdTbl_v || real_id == Inst::kIdTbx_v;
+
+  uint32_t list_first = is_tbl_or_tbx ? 1u : 0u;
+  uint32_t list_count = uint32_t(op_count) - Support::min<uint32_t>(uint32_t(op_count), list_first + 1u);
+
+  if (inst_info.has_flag(InstDB::kInstFlagConsecutive) && list_count > 1) {
     for (uint32_t i = 0; i < op_count; i++) {
       OpRWInfo& op = out->_operands[i];
       const Operand_& src_op = operands[i];
@@ -125,7 +133,8 @@ Error query_rw_info(const BaseInst& inst, const Operand_* operands, size_t op_co
         continue;
       }
 
-      OpRWFlags rw_flags = i < op_count - 1 ? (OpRWFlags)rw_info.rwx[0] : (OpRWFlags)rw_info.rwx[1];
+      OpRWFlags rw_flags = is_tbl_or_tbx ? (OpRWFlags)rw_info.rwx[i] :
+                           i < op_count - 1 ? (OpRWFlags)rw_info.rwx[0] : (OpRWFlags)rw_info.rwx[1];
 
       op._op_flags = rw_flags & ~(OpRWFlags::kZExt);
       op._phys_id = Reg::kIdBad;
@@ -141,10 +150,10 @@ Error query_rw_info(const BaseInst& inst, const Operand_* operands, size_t op_co
       op._consecutive_lead_count = 0;
 
       if (src_op.is_reg()) {
-        if (i == 0) {
-          op._consecutive_lead_count = uint8_t(op_count - 1);
+        if (i == list_first) {
+          op._consecutive_lead_count = uint8_t(list_count);
         }
-        else {
+        else if (i > list_first && i < list_first + list_count) {
           op.add_op_flags(OpRWFlags::kConsecutive);
         }
       }
